@@ -233,6 +233,9 @@ class ReadableStream(io.RawIOBase):
     #: Total size of data or ``None`` if not specified
     size = None
 
+    #: Data received that did not fit in the buffer given to readinto()
+    _unread = b""
+
     def __init__(self, sdo_client, index, subindex=0):
         """
         :param canopen.sdo.SdoClient sdo_client:
@@ -319,9 +322,12 @@ class ReadableStream(io.RawIOBase):
         Read bytes into a pre-allocated, writable bytes-like object b,
         and return the number of bytes read.
         """
-        data = self.read(7)
-        b[:len(data)] = data
-        return len(data)
+        data = self._unread or self.read(7)
+        # The caller's buffer may be smaller than one segment
+        size = min(len(b), len(data))
+        b[:size] = data[:size]
+        self._unread = data[size:]
+        return size
 
     def readable(self):
         return True
@@ -456,6 +462,9 @@ class BlockUploadStream(io.RawIOBase):
     blksize = 127
 
     crc_supported = False
+
+    #: Data received that did not fit in the buffer given to readinto()
+    _unread = b""
 
     def __init__(self, sdo_client, index, subindex=0, request_crc_support=True):
         """
@@ -609,9 +618,12 @@ class BlockUploadStream(io.RawIOBase):
         Read bytes into a pre-allocated, writable bytes-like object b,
         and return the number of bytes read.
         """
-        data = self.read(7)
-        b[:len(data)] = data
-        return len(data)
+        data = self._unread or self.read(7)
+        # The caller's buffer may be smaller than one segment
+        size = min(len(b), len(data))
+        b[:size] = data[:size]
+        self._unread = data[size:]
+        return size
 
     def readable(self):
         return True
